@@ -162,6 +162,8 @@ int h_madvise(void *a, size_t n, int adv) {
 }
 long h_sysconf(int name) { return name == _SC_PAGESIZE ? (long) M.P : simos_real_sysconf(name); }
 
+extern "C" int sodium_crit_leave(void); // private/mutex.h: used only to drop the library lock after an observed termination
+
 // ---------------- termination + probes ----------------
 sigjmp_buf g_term_env, g_probe_env;
 volatile int g_term_armed = 0, g_probing = 0;
@@ -169,6 +171,15 @@ volatile uintptr_t g_fault_addr = 0;
 std::string g_term_how;
 uint64_t g_unmaps_at_term = 0;
 
+// environment knob: the application has installed a misuse handler that does not return (it unwinds to the
+// application's own recovery point, as a language binding that throws would).  Freeing a block with a damaged canary
+// must END the process all the same; ending up in that handler instead means the process lives on.
+bool g_misuse_handler_installed = false;
+uint64_t g_misuse_handler_calls = 0;
+void app_misuse_handler(void) {
+    g_misuse_handler_calls++;
+    if (g_term_armed) { g_term_how = "the application's misuse handler (which does not terminate)"; g_unmaps_at_term = M.n_unmap_calls; siglongjmp(g_term_env, 2); }
+}
 bool g_signal_ignored = false; // environment knob: the application ignores/blocks the signal, so raise() returns
 uint64_t g_raise_returned = 0;
 int h_raise(int sig) {
@@ -215,7 +226,7 @@ struct Op {
     uint32_t a = 0, b = 0;        // offsets / byte index / value
     bool fault = false;           // free / protection ops: mprotect() fails with ENOMEM while this operation runs
 };
-struct PlanT { Json pk; uint64_t content_seed = 0; int lock_policy = 0; bool signal_ignored = false; std::vector<Op> ops; };
+struct PlanT { Json pk; uint64_t content_seed = 0; int lock_policy = 0; bool signal_ignored = false; bool misuse_handler = false; std::vector<Op> ops; };
 
 struct Alloc { uintptr_t p; size_t size; int prot; bool canary_ok; Bytes shadow; uintptr_t region; uint64_t id; unsigned char tamper[16]; };
 
@@ -443,8 +454,15 @@ struct Exec {
             g_term_armed = 0;
             simos_reset_thread();
             terminated = true;
+            (void) sodium_crit_leave(); // whatever path ended the process may have been holding the library lock
         }
         M.mprotect_fails = false; g_segv_terminates = 0;
+        if (terminated && g_term_how.compare(0, 17, "the application's") == 0) {
+            res.fail(al.canary_ok ? "free-terminated" : "underflow-not-terminated", "misuse-handler", "sodium_free of allocation #" + std::to_string(al.id) + (al.canary_ok ? " (intact)" : " (canary altered)") +
+                     " ended in " + g_term_how + ": the process is not terminated", step);
+            live.erase(live.begin() + (long) i);
+            return;
+        }
         dg.add((uint64_t) terminated);
         if (op.fault) res.count("fault.mprotect_enomem_in_free");
         res.count(std::string("fault.free_from.") + prot_name[al.prot]);
@@ -516,6 +534,7 @@ struct Exec {
     Result run() {
         M.lock_policy = plan.lock_policy;
         g_signal_ignored = plan.signal_ignored;
+        if (plan.misuse_handler != g_misuse_handler_installed) { LibScope l; sodium_set_misuse_handler(plan.misuse_handler ? app_misuse_handler : nullptr); g_misuse_handler_installed = plan.misuse_handler; }
         uint64_t raise_ret0 = g_raise_returned;
         M.anomalies.clear();
         uint64_t lock_failed0 = M.lock_failed;
@@ -546,6 +565,7 @@ struct Exec {
         if (M.lock_failed != lock_failed0) res.count("fault.mlock_madvise_failed", M.lock_failed - lock_failed0);
         if (g_raise_returned != raise_ret0) res.count("fault.signal_ignored_raise_returned", g_raise_returned - raise_ret0);
         res.count(std::string("knob.signal_ignored=") + (plan.signal_ignored ? "yes" : "no"));
+        res.count(std::string("knob.nonreturning_misuse_handler=") + (plan.misuse_handler ? "yes" : "no"));
         res.digest = dg.value();
         res.nontrivial = true;
         res.count("knob.page_size=" + std::to_string(M.P));
@@ -619,6 +639,7 @@ struct C17 {
         p.pk = pk; p.content_seed = rs;
         p.lock_policy = (int) (f.below(10) < 5 ? 0 : f.range(1, 3));
         p.signal_ignored = f.chance(1, 3);
+        p.misuse_handler = f.chance(1, 3);
         size_t nops = (size_t) r.range(3, thorough ? 40 : 28);
         for (size_t i = 0; i < nops; i++) {
             Op op;
@@ -659,7 +680,7 @@ struct C17 {
 
     static Json to_json(const Plan &p) {
         Json j = Json::object();
-        j["knobs"] = p.pk; j["content_seed"] = p.content_seed; j["lock_policy"] = p.lock_policy; j["signal_ignored"] = p.signal_ignored;
+        j["knobs"] = p.pk; j["content_seed"] = p.content_seed; j["lock_policy"] = p.lock_policy; j["signal_ignored"] = p.signal_ignored; j["misuse_handler"] = p.misuse_handler;
         Json ops = Json::array();
         for (auto &o : p.ops) {
             Json q = Json::object();
@@ -674,7 +695,7 @@ struct C17 {
     }
     static Plan from_json(const Json &j) {
         Plan p;
-        p.pk = j.at("knobs"); p.content_seed = j.at("content_seed").u64(); p.lock_policy = (int) j.at("lock_policy").i64(); p.signal_ignored = j.at("signal_ignored").boolean();
+        p.pk = j.at("knobs"); p.content_seed = j.at("content_seed").u64(); p.lock_policy = (int) j.at("lock_policy").i64(); p.signal_ignored = j.at("signal_ignored").boolean(); p.misuse_handler = j.at("misuse_handler").boolean();
         for (auto &q : j.at("ops").a) {
             Op o;
             for (int i = 0; i < O_NKINDS; i++) if (q.at("op").str() == op_name[i]) o.kind = i;
@@ -690,6 +711,7 @@ struct C17 {
         std::vector<Plan> out;
         if (p.lock_policy) { Plan c = p; c.lock_policy = 0; out.push_back(c); }
         if (p.signal_ignored) { Plan c = p; c.signal_ignored = false; out.push_back(c); }
+        if (p.misuse_handler) { Plan c = p; c.misuse_handler = false; out.push_back(c); }
         if (p.pk.at("page_size").u64() != 4096) { Plan c = p; c.pk["page_size"] = 4096u; out.push_back(c); }
         if (p.pk.at("cpu_disable").u64() != 0) { Plan c = p; c.pk["cpu_disable"] = 0u; out.push_back(c); }
         for (size_t i = 0; i < p.ops.size(); i++) {
